@@ -105,6 +105,7 @@ type StatsOut struct {
 	SiteHits                                                                                                            []uint32
 	TraceDigest                                                                                                         uint64
 	MapPerms                                                                                                            []uint64
+	PoolGets, PoolDrops, RandDraws, ClockReads, HotYields                                                               uint64
 }
 
 func (st *Stats) out() StatsOut {
@@ -143,6 +144,8 @@ func (st *Stats) out() StatsOut {
 		return o.SitePairs[a][1] < o.SitePairs[b][1]
 	})
 	o.SiteHits = simrt.SiteHits
+	o.PoolGets, o.PoolDrops, o.RandDraws, o.ClockReads = simrt.ShimCounters()
+	o.HotYields = simrt.HotYields
 	return o
 }
 
